@@ -14,7 +14,7 @@ From Coq Require Import List Arith Bool PArith QArith Qcanon.
 Import ListNotations.
 Require Import Fggs.Model.Axis Fggs.Model.AxisCheck Fggs.Model.AxisEnum Fggs.Model.XVal Fggs.Model.PTensor Fggs.Model.PTensorCheck Fggs.Model.PTEqual.
 Require Import Fggs.Proofs.PTensor_dense Fggs.Proofs.PTEqual_count Fggs.Proofs.PTEqual_sem Fggs.Proofs.PTEqual_freshen.
-Require Import Fggs.Proofs.PTEqual_main Fggs.Proofs.PTEqual_multi Fggs.Proofs.PTEqual_bounded Fggs.Proofs.PTEqual_examples.
+Require Import Fggs.Proofs.PTEqual_main Fggs.Proofs.PTEqual_multi Fggs.Proofs.PTEqual_bounded Fggs.Proofs.PTEqual_examples Fggs.Proofs.PTEqual_dense.
 Local Open Scope nat_scope.
 
 (** * supports and the counting argument (any carrier, any comparison) *)
@@ -137,6 +137,19 @@ Theorem C13_equal_clone : forall next next2 (t : pt) b, nan_free t -> wf xval t 
   equal_model next t (fst (pt_freshen xval next2 t)) = Ok b -> b = true.
 Proof. exact equal_clone. Qed.
 Print Assumptions C13_equal_clone.
+
+(** [PatternedTensor(dense, default=d)] denotes the dense tensor it is built from, whatever [d] ... *)
+Theorem C13_of_dense_denote : forall (V : Type) shp (f : list nat -> V) d next idx, in_bounds shp idx ->
+  denote V (fst (pt_of_dense V shp f d next)) idx = f idx.
+Proof. exact pt_of_dense_denote. Qed.
+Print Assumptions C13_of_dense_denote.
+
+(** ... hence a tensor equals its densification *)
+Theorem C13_equal_densify : forall next next2 d (t : pt) b, nan_free t ->
+  compare_pre_b next t (fst (pt_of_dense xval (shape xval t) (denote xval t) d next2)) = true ->
+  equal_model next t (fst (pt_of_dense xval (shape xval t) (denote xval t) d next2)) = Ok b -> b = true.
+Proof. exact equal_densify. Qed.
+Print Assumptions C13_equal_densify.
 
 (** equal_default / allclose_default: every cell against the tensor's own default *)
 Theorem C13_default_correct : forall cmp (t : pt), wf xval t -> cmp (default t) (default t) = true ->
